@@ -253,6 +253,26 @@ Proof.
   cbn [r_wm]. intros t k Hin. eapply fire_le; eassumption.
 Qed.
 
+(* an early stop of the consumer changes neither the table nor the cached composite *)
+Lemma advance_stop_spec : forall ids msgs r s p k r' f,
+  reg_inv ids msgs r -> advance_stop r s p k = (r', f) ->
+  reg_inv ids (msgs ++ [(s, as_time p)]) r' /\ forall t key, In (t, key) f -> t <= r_wm r'.
+Proof.
+  intros ids msgs r s p k r' f Hinv H. unfold advance_stop in H.
+  pose proof (reg_inv_note ids msgs r s p Hinv) as [Hu Hw].
+  destruct (fire (r_wm (reg_note r s p)) (r_timers (reg_note r s p))) as [f' keep] eqn:E.
+  inversion H; subst. split; [split; assumption|].
+  cbn [r_wm]. intros t key Hin. eapply fire_le; [exact E|]. rewrite <- (firstn_skipn k f'). apply in_or_app. left. exact Hin.
+Qed.
+
+Lemma advance_stop_same_wm : forall r s p k,
+  r_ups (fst (advance_stop r s p k)) = r_ups (fst (advance r s p)) /\
+  r_wm (fst (advance_stop r s p k)) = r_wm (fst (advance r s p)).
+Proof.
+  intros r s p k. unfold advance_stop, advance.
+  destruct (fire (r_wm (reg_note r s p)) (r_timers (reg_note r s p))) as [f keep]. split; reflexivity.
+Qed.
+
 Lemma rop_msgs_app : forall a b, rop_msgs (a ++ b) = rop_msgs a ++ rop_msgs b.
 Proof.
   induction a as [|o a IH]; intro b; [reflexivity|].
@@ -263,9 +283,10 @@ Lemma reg_step_inv : forall ids msgs r o r' f,
   reg_inv ids msgs r -> reg_step r o = (r', f) ->
   reg_inv ids (msgs ++ rop_msgs [o]) r' /\ forall t k, In (t, k) f -> t <= r_wm r'.
 Proof.
-  intros ids msgs r o r' f Hinv H. destruct o as [s p|k t]; cbn [reg_step rop_msgs] in *.
+  intros ids msgs r o r' f Hinv H. destruct o as [s p|k t|s p k]; cbn [reg_step rop_msgs] in *.
   - eapply advance_spec; eassumption.
   - inversion H; subst. rewrite app_nil_r. split; [apply reg_inv_set_timer; exact Hinv|intros ? ? []].
+  - eapply advance_stop_spec; eassumption.
 Qed.
 
 Lemma reg_run_inv : forall ops ids msgs r,
@@ -349,26 +370,30 @@ Proof.
   intros P st w Hb. split; [split; reflexivity|]. split; [intros ? []|]. split; [exact Hb|intros ? []].
 Qed.
 
-Lemma process_batch_spec : forall h st st' calls P,
-  process_batch h st = (st', calls) -> ht_ok P (o_batch st) ->
+Lemma process_batch_spec : forall h st st' calls ok P,
+  process_batch h st = (st', calls, ok) -> ht_ok P (o_batch st) ->
   same_wm st st' /\ told_ok (r_wm (o_reg st)) calls /\ ht_ok P (o_batch st') /\ calls_ht_ok P calls.
 Proof.
-  intros h st st' calls P H Hb. unfold process_batch in H.
+  intros h st st' calls ok P H Hb. unfold process_batch in H.
   destruct (o_batch st) as [|e evs] eqn:E.
   - inversion H; subst. apply nochange_spec. rewrite E. exact Hb.
-  - inversion H; subst. cbn [o_reg o_batch].
-    destruct (apply_results_keeps (h (pb_new (r_wm (o_reg st))) (e :: evs)) (o_reg st)) as [H1 H2].
-    split; [split; assumption|]. split; [|split].
-    + intros c [<-|[]]. reflexivity.
-    + intros k t [].
-    + intros c [<-|[]]. cbn [c_events]. exact Hb.
+  - destruct (h (pb_new (r_wm (o_reg st))) (e :: evs)) as [res|] eqn:Eh; inversion H; subst; cbn [o_reg o_batch].
+    + destruct (apply_results_keeps res (o_reg st)) as [H1 H2].
+      split; [split; assumption|]. split; [|split].
+      * intros c [<-|[]]. reflexivity.
+      * intros k t [].
+      * intros c [<-|[]]. cbn [c_events]. exact Hb.
+    + split; [split; reflexivity|]. split; [|split].
+      * intros c [<-|[]]. reflexivity.
+      * intros k t [].
+      * intros c [<-|[]]. cbn [c_events]. exact Hb.
 Qed.
 
-Lemma add_event_spec : forall h m st e st' calls P,
-  add_event h m st e = (st', calls) -> ht_ok P (o_batch st) -> (forall k t, e = HT k t -> P t) ->
+Lemma add_event_spec : forall h m st e st' calls ok P,
+  add_event h m st e = (st', calls, ok) -> ht_ok P (o_batch st) -> (forall k t, e = HT k t -> P t) ->
   same_wm st st' /\ told_ok (r_wm (o_reg st)) calls /\ ht_ok P (o_batch st') /\ calls_ht_ok P calls.
 Proof.
-  intros h m st e st' calls P H Hb He. unfold add_event in H.
+  intros h m st e st' calls ok P H Hb He. unfold add_event in H.
   assert (Hb1 : ht_ok P (o_batch st ++ [e])).
   { intros k t Hin. apply in_app_iff in Hin. destruct Hin as [Hin|[Heq|[]]]; [eapply Hb; exact Hin|eapply He; exact Heq]. }
   destruct (Nat.leb m (length (o_batch {| o_reg := o_reg st; o_batch := o_batch st ++ [e] |}))).
@@ -388,21 +413,23 @@ Proof.
       * inversion H; subst. apply nochange_spec. exact Hb.
       * apply Z.ltb_ge in Ec.
         set (st1 := {| o_reg := {| r_ups := r_ups (o_reg st); r_wm := r_wm (o_reg st); r_timers := rest |}; o_batch := o_batch st |}) in *.
-        destruct (add_event h m st1 (HT k t)) as [st2 calls1] eqn:E1.
-        destruct (fire_loop h m c fuel st2) as [st3 calls2] eqn:E2.
-        inversion H; subst.
-        destruct (add_event_spec _ _ _ _ _ _ P E1) as [[Hu1 Hw1] [Ht1 [Hb2 Hc1]]].
+        destruct (add_event h m st1 (HT k t)) as [[st2 calls1] ok] eqn:E1.
+        destruct (add_event_spec _ _ _ _ _ _ _ P E1) as [[Hu1 Hw1] [Ht1 [Hb2 Hc1]]].
         { exact Hb. }
         { intros k' t' Heq. inversion Heq; subst. apply HP. exact Ec. }
-        destruct (IH _ _ _ E2 Hb2 HP) as [[Hu2 Hw2] [Ht2 [Hb3 Hc2]]].
         cbn [st1 o_reg r_ups r_wm] in Hu1, Hw1, Ht1.
-        split; [split|split; [|split]].
-        -- rewrite Hu2, Hu1. reflexivity.
-        -- rewrite Hw2, Hw1. reflexivity.
-        -- intros cl Hin. apply in_app_iff in Hin. destruct Hin as [Hin|Hin]; [apply Ht1; exact Hin|].
-           rewrite (Ht2 _ Hin), Hw1. reflexivity.
-        -- exact Hb3.
-        -- intros cl Hin. apply in_app_iff in Hin. destruct Hin as [Hin|Hin]; [apply Hc1|apply Hc2]; exact Hin.
+        destruct ok.
+        -- destruct (fire_loop h m c fuel st2) as [st3 calls2] eqn:E2.
+           inversion H; subst.
+           destruct (IH _ _ _ E2 Hb2 HP) as [[Hu2 Hw2] [Ht2 [Hb3 Hc2]]].
+           split; [split|split; [|split]].
+           ++ rewrite Hu2, Hu1. reflexivity.
+           ++ rewrite Hw2, Hw1. reflexivity.
+           ++ intros cl Hin. apply in_app_iff in Hin. destruct Hin as [Hin|Hin]; [apply Ht1; exact Hin|].
+              rewrite (Ht2 _ Hin), Hw1. reflexivity.
+           ++ exact Hb3.
+           ++ intros cl Hin. apply in_app_iff in Hin. destruct Hin as [Hin|Hin]; [apply Hc1|apply Hc2]; exact Hin.
+        -- inversion H; subst. split; [split; assumption|]. split; [exact Ht1|]. split; [exact Hb2|exact Hc1].
 Qed.
 
 (* an expired timer is justified by a watermark message handled earlier (in this or an earlier deployment): it
@@ -445,7 +472,8 @@ Proof.
   unfold op_inv, spec_at. rewrite drun_app1.
   destruct (drun (ids0, []) pre) as [ids msgs] eqn:Ed. cbn [fst snd] in Hreg.
   destruct o as [s id key timers|s p|s|ids']; cbn [op_step dstep fst snd] in *.
-  - destruct (add_event_spec _ _ _ _ _ _ (fired_ok ids0 (pre ++ [OEv s id key timers])) H Hb1) as [[Hu Hw] [Ht [Hb' Hc]]]; [intros ? ? Heq; discriminate|].
+  - destruct (add_event h m st (HK id key timers)) as [[stx callsx] okx] eqn:Ex. cbn [fst] in H. inversion H; subst stx callsx.
+    destruct (add_event_spec _ _ _ _ _ _ _ (fired_ok ids0 (pre ++ [OEv s id key timers])) Ex Hb1) as [[Hu Hw] [Ht [Hb' Hc]]]; [intros ? ? Heq; discriminate|].
     split; [split; [eapply reg_inv_same; eassumption|exact Hb']|].
     split; [|exact Hc]. destruct Hreg as [_ Hwm]. rewrite <- Hwm. exact Ht.
   - pose proof (reg_inv_note ids msgs (o_reg st) s p Hreg) as Hnote.
@@ -458,7 +486,8 @@ Proof.
     + intros t Hle. exists pre, s, p, []. split; [reflexivity|].
       unfold spec_at. rewrite drun_app1, Ed. cbn [dstep fst snd].
       destruct Hnote as [_ Hwm]. rewrite <- Hwm. exact Hle.
-  - destruct (process_batch_spec _ _ _ _ (fired_ok ids0 (pre ++ [OComplete s])) H Hb1) as [[Hu Hw] [Ht [Hb' Hc]]].
+  - destruct (process_batch h st) as [[stx callsx] okx] eqn:Ex. cbn [fst] in H. inversion H; subst stx callsx.
+    destruct (process_batch_spec _ _ _ _ _ (fired_ok ids0 (pre ++ [OComplete s])) Ex Hb1) as [[Hu Hw] [Ht [Hb' Hc]]].
     split; [split; [eapply reg_inv_same; eassumption|exact Hb']|].
     split; [|exact Hc]. destruct Hreg as [_ Hwm]. rewrite <- Hwm. exact Ht.
   - inversion H; subst. cbn [o_reg o_batch].
@@ -522,8 +551,8 @@ Lemma source_complete_keeps_table : forall h m st s,
   r_ups (o_reg (fst (op_step h m st (OComplete s)))) = r_ups (o_reg st) /\
   r_wm (o_reg (fst (op_step h m st (OComplete s)))) = r_wm (o_reg st).
 Proof.
-  intros h m st s. cbn [op_step]. destruct (process_batch h st) as [st' calls] eqn:E. cbn [fst].
-  destruct (process_batch_spec h st st' calls (fun _ => True) E) as [[Hu Hw] _]; [intros ? ? ?; exact I|].
+  intros h m st s. cbn [op_step]. destruct (process_batch h st) as [[st' calls] ok] eqn:E. cbn [fst].
+  destruct (process_batch_spec h st st' calls ok (fun _ => True) E) as [[Hu Hw] _]; [intros ? ? ?; exact I|].
   split; assumption.
 Qed.
 
@@ -610,9 +639,58 @@ Qed.
    year 1 instead of the composite (the epoch) *)
 Lemma handler_told_before_fix_refuted :
   exists ids ops calls c,
-    nth_error (op_trace (fun _ _ => []) 1 {| o_reg := reg_new_before_fix ids; o_batch := [] |} ops) 0 = Some calls /\
+    nth_error (op_trace (fun _ _ => Some []) 1 {| o_reg := reg_new_before_fix ids; o_batch := [] |} ops) 0 = Some calls /\
     In c calls /\ c_told c <> pb_new (spec_at ids (firstn 1 ops)).
 Proof.
   exists [1%N], [OEv 1 1 0 []]. eexists. eexists. split; [reflexivity|]. split; [left; reflexivity|].
   vm_compute. discriminate.
+Qed.
+
+(* a handler error in the middle of a watermark advance (or anywhere else) rolls nothing back: after every
+   incoming event, failed calls or not, the registry's table and cached composite are those of a run whose
+   handler never fails - they do not depend on the handler at all *)
+Lemma wm_independent_of_handler : forall (h h' : handler) m m' ops st st',
+  r_ups (o_reg st) = r_ups (o_reg st') -> r_wm (o_reg st) = r_wm (o_reg st') ->
+  forall i, let run := fun hh mm s0 => fold_left (fun s o => fst (op_step hh mm s o)) (firstn i ops) s0 in
+  r_ups (o_reg (run h m st)) = r_ups (o_reg (run h' m' st')) /\
+  r_wm (o_reg (run h m st)) = r_wm (o_reg (run h' m' st')).
+Proof.
+  intros h h' m m' ops. induction ops as [|o ops IH]; intros st st' Hu Hw i run.
+  - unfold run. rewrite firstn_nil. cbn. split; assumption.
+  - destruct i as [|i]; [unfold run; cbn; split; assumption|].
+    unfold run. cbn [firstn fold_left]. apply IH.
+    + destruct (op_step h m st o) as [s1 c1] eqn:E1. destruct (op_step h' m' st' o) as [s2 c2] eqn:E2. cbn [fst].
+      destruct o as [s id key timers|s p|s|ids']; cbn [op_step] in E1, E2.
+      * destruct (add_event h m st (HK id key timers)) as [[a1 b1] k1] eqn:A1.
+        destruct (add_event h' m' st' (HK id key timers)) as [[a2 b2] k2] eqn:A2. cbn [fst] in E1, E2. inversion E1; inversion E2; subst.
+        destruct (add_event_spec _ _ _ _ _ _ _ (fun _ => True) A1) as [[X1 _] _]; [intros ? ? ?; exact I|intros; exact I|].
+        destruct (add_event_spec _ _ _ _ _ _ _ (fun _ => True) A2) as [[X2 _] _]; [intros ? ? ?; exact I|intros; exact I|].
+        rewrite X1, X2. exact Hu.
+      * eapply (fire_loop_spec _ _ _ (fun _ => True)) in E1; [|intros ? ? ?; exact I|intros; exact I].
+        eapply (fire_loop_spec _ _ _ (fun _ => True)) in E2; [|intros ? ? ?; exact I|intros; exact I].
+        destruct E1 as [[X1 _] _]. destruct E2 as [[X2 _] _]. cbn [o_reg] in X1, X2. rewrite X1, X2.
+        unfold reg_note. cbn [r_ups]. rewrite Hu. reflexivity.
+      * destruct (process_batch h st) as [[a1 b1] k1] eqn:A1. destruct (process_batch h' st') as [[a2 b2] k2] eqn:A2.
+        cbn [fst] in E1, E2. inversion E1; inversion E2; subst.
+        destruct (process_batch_spec _ _ _ _ _ (fun _ => True) A1) as [[X1 _] _]; [intros ? ? ?; exact I|].
+        destruct (process_batch_spec _ _ _ _ _ (fun _ => True) A2) as [[X2 _] _]; [intros ? ? ?; exact I|].
+        rewrite X1, X2. exact Hu.
+      * inversion E1; inversion E2; subst. reflexivity.
+    + destruct (op_step h m st o) as [s1 c1] eqn:E1. destruct (op_step h' m' st' o) as [s2 c2] eqn:E2. cbn [fst].
+      destruct o as [s id key timers|s p|s|ids']; cbn [op_step] in E1, E2.
+      * destruct (add_event h m st (HK id key timers)) as [[a1 b1] k1] eqn:A1.
+        destruct (add_event h' m' st' (HK id key timers)) as [[a2 b2] k2] eqn:A2. cbn [fst] in E1, E2. inversion E1; inversion E2; subst.
+        destruct (add_event_spec _ _ _ _ _ _ _ (fun _ => True) A1) as [[_ X1] _]; [intros ? ? ?; exact I|intros; exact I|].
+        destruct (add_event_spec _ _ _ _ _ _ _ (fun _ => True) A2) as [[_ X2] _]; [intros ? ? ?; exact I|intros; exact I|].
+        rewrite X1, X2. exact Hw.
+      * eapply (fire_loop_spec _ _ _ (fun _ => True)) in E1; [|intros ? ? ?; exact I|intros; exact I].
+        eapply (fire_loop_spec _ _ _ (fun _ => True)) in E2; [|intros ? ? ?; exact I|intros; exact I].
+        destruct E1 as [[_ X1] _]. destruct E2 as [[_ X2] _]. cbn [o_reg] in X1, X2. rewrite X1, X2.
+        unfold reg_note. cbn [r_wm]. rewrite Hu. reflexivity.
+      * destruct (process_batch h st) as [[a1 b1] k1] eqn:A1. destruct (process_batch h' st') as [[a2 b2] k2] eqn:A2.
+        cbn [fst] in E1, E2. inversion E1; inversion E2; subst.
+        destruct (process_batch_spec _ _ _ _ _ (fun _ => True) A1) as [[_ X1] _]; [intros ? ? ?; exact I|].
+        destruct (process_batch_spec _ _ _ _ _ (fun _ => True) A2) as [[_ X2] _]; [intros ? ? ?; exact I|].
+        rewrite X1, X2. exact Hw.
+      * inversion E1; inversion E2; subst. reflexivity.
 Qed.
